@@ -8,6 +8,7 @@ Outcome per path must be acceptance or a RuntimeError / SystemExit diagnostic wi
 """
 import copy
 import os
+import re
 import traceback
 
 import z3
@@ -35,7 +36,7 @@ ATTR_CANDIDATES = [
     ("free_pattern", True), ("allocatable", True), ("name", True), ("len_trim", True), ("size", True),
     # the argument of size/len/len_trim is not an argument name; text after a complete expression
     ("implied", "size(3)"), ("implied", "size(p+1)"), ("implied", "len(3)"), ("implied", "size(p) 4"), ("implied", "n 1"),
-    ("dimension", "3 4"), ("dimension", "n,2 n"), ("rank", "8"), ("rank", "7"),
+    ("dimension", "3 4"), ("dimension", "n,2 n"), ("rank", "8"), ("rank", "7"), ("implied", "size(zzz)"), ("implied", "len(zzz)"),
     # documented form +name=scalar with a number where text is expected (and +len=30, documented)
     ("intent", "=1"), ("implied", "=1"), ("dimension", "=2"), ("name", "=1.5"), ("deref", "=1"), ("owner", "=x"), ("len", "=30"),
     ("charlen", "=8"), ("rank", "=1"), ("free_pattern", "=1"),
@@ -126,6 +127,13 @@ class AttrHarness(object):
             shape = ARG_SHAPES[self.shape]
             shape = shape.replace("{A}", at) if "{A}" in shape else shape + at
             self.decl = "void f(%s, int n, int *q)" % shape
+        elif self.kind == "generic":
+            # the attributes sit on an argument of a fortran_generic entry (its own parameter list), not on the declaration
+            self.decl = "void f(double *p, int n, int *q)"
+            self.entry = {"decl": self.decl, "fortran_generic": [{"decl": "(float *p, int n%s, int *q)" % at},
+                                                                 {"decl": "(double *p, int n, int *q)"}]}
+            generate_only(base_library([copy.deepcopy(self.entry)]))
+            return "accepted"
         elif self.kind == "tmpl":
             self.decl = None
             return self.run_template(e)
@@ -152,7 +160,7 @@ class AttrHarness(object):
 
     def witness(self, what, extra=None):
         w = {"kernel": "attrs", "decl": self.decl, "what": what}
-        if self.kind == "tmpl":
+        if self.kind in ("tmpl", "generic"):
             w["entry"] = getattr(self, "entry", None)
         if extra:
             w.update(extra)
@@ -213,6 +221,15 @@ def documented_misuse(kind, shape, picks):
         if shape == DEFAULT_FIRST and (not given or given[-1][1] is not True):
             # (after a valueless attribute, '= 1' is that attribute's value, documented form +name=scalar, not a default)
             return "a parameter without a default value follows one that has a default value (not a C++ declaration)"
+    if kind in ("arg", "generic") and isinstance(attrs.get("implied"), str) and not (kind == "arg" and "(*cb)" in ARG_SHAPES[shape]):
+        m_ = re.match(r"^(size|len|len_trim)\((\w+)\)$", attrs["implied"])
+        if m_ and m_.group(2) not in ("p", "n", "q", "a", "cb"):
+            return "implied %s() of '%s', which is not an argument of the function" % (m_.group(1), m_.group(2))
+    if kind == "generic":
+        for k in ("implied",):
+            v = attrs.get(k)
+            if isinstance(v, str) and trailing_text(v):
+                return "the value of %s has text after a complete expression" % k
     if kind in ("arg", "var", "result"):
         r = attrs.get("rank")
         if isinstance(r, str) and r.lstrip("-").isdigit() and not 0 <= int(r) <= 7:
@@ -458,6 +475,8 @@ def specs(tier):
     for i in (0, 1, 4, 7):
         out.append(("harness.c17_kernels", "make_attr", dict(kind="var", shape=i, nattr=1)))
         labels.append("attributes on variable %r" % ARG_SHAPES[i])
+    out.append(("harness.c17_kernels", "make_attr", dict(kind="generic", shape=0, nattr=1)))
+    labels.append("attributes on an argument of a fortran_generic entry")
     out.append(("harness.c17_kernels", "make_attr", dict(kind="tmpl", shape=0, nattr=0)))
     labels.append("template header x declaration x cxx_template list")
     out.append(("harness.c17_kernels", "make_yaml", {}))
